@@ -898,6 +898,27 @@ def collision_corpus():
            {"op": "set", "path": X, "value": 5}, {"op": "set", "path": X, "value": 7}]
 
 
+def collision_corpus_frozen():
+    """two different plain locations whose references collide in hash (m[-1] / m[-2], m[1] / m[True] is the same key) each
+    with its own dependant, assigned within one frozen period and after it: each assignment updates ITS dependants,
+    whatever a frozen manager remembers per location"""
+    # members of the TOP-LEVEL container: a task reading d[-1] depends on d[-1] alone (a member of a nested container also
+    # depends on the enclosing member, and then every reader runs whichever member is assigned)
+    M = lambda k: ["d", ["i", k]]
+    Y1, Y2, Y3 = (["d", ["i", k]] for k in ("y1", "y2", "y3"))
+    base = [{"op": "reset"},
+            {"op": "container", "label": "d", "value": {"d": [[-1, 0], [-2, 0], [2, 0], ["y1", 0], ["y2", 0], ["y3", 0]]}},
+            {"op": "setexpr", "path": Y1, "expr": ["bin", "Mul", ["ref", M(-1)], ["lit", 2]]},
+            {"op": "setexpr", "path": Y2, "expr": ["bin", "Add", ["ref", M(-2)], ["lit", 1]]},
+            {"op": "setexpr", "path": Y3, "expr": ["bin", "Sub", ["ref", M(2)], ["lit", 1]]}]
+    yield base + [{"op": "freeze"}, {"op": "set", "path": M(-1), "value": 5}, {"op": "set", "path": M(-2), "value": 7},
+                  {"op": "set", "path": M(2), "value": 3}, {"op": "set", "path": M(-1), "value": 6},
+                  {"op": "unfreeze"}, {"op": "set", "path": M(-2), "value": 8}, {"op": "set", "path": M(-1), "value": 9},
+                  {"op": "freeze"}, {"op": "set", "path": M(-2), "value": 10}, {"op": "set", "path": M(-1), "value": 11}]
+    yield base + [{"op": "set", "path": M(-1), "value": 4}, {"op": "freeze"}, {"op": "set", "path": M(-2), "value": 7},
+                  {"op": "set", "path": M(-1), "value": 5}, {"op": "set", "path": M(-2), "value": 9}]
+
+
 def c13_corpus():
     """the same setter (same name, same references) generated again after the definitions changed"""
     X, Y, W_, Z = (["d", ["i", k]] for k in "xywz")
@@ -1233,7 +1254,7 @@ def main():
             stats["histories"] += 1
     elif a.corpus and a.family == "c17":
         scenario_two_managers(hid, stats, failures); hid += 1
-        for ops in c17_corpus():
+        for ops in list(c17_corpus()) + list(collision_corpus_frozen()):
             sess = replay_ops(ops, hid, stats, failures, a.family)
             lines.extend(sess.lines)
             hid += 1
